@@ -1,3 +1,88 @@
-From ST Require Import Base.Outcome Utf.Spec Utf.Tokens Utf.Model.
-Theorem placeholder : True. Proof. exact I. Qed.
-Print Assumptions placeholder.
+(* Properties/C03.v — C03: conversions are total and memory-safe on arbitrary input.
+   Statements only.  `input_ok bound src`: src is the null pointer (with size 0) or a block of
+   fewer than 2^28 units, each below `bound` (the unit width); `safe_result o`: o is `Ok buffer`
+   or `Throw UnicodeError` — in particular not `Fault OOBRead` (read outside the input range),
+   `Fault OOBWrite` (write outside the result), `Fault Unwritten` (part of the result left
+   unwritten), `Fault Hang` (fuel S (length s) exhausted), nor any `Abort`.
+   The result of the model IS the list of units held, so size() = number of units holds by
+   construction; the terminator cell is written by allocate() and observed by the harness.     *)
+From Coq Require Import NArith List Bool.
+From ST Require Import Base.Outcome Base.Units Utf.Spec Utf.Tokens Utf.Model Utf.ProofsC01 Utf.ProofsC03.
+Import ListNotations.
+Local Open Scope N_scope.
+
+(* ---- total_safe: every pair, every mode, both Latin-1 flags, every unit sequence ---- *)
+Theorem total_safe_utf8_source : forall m sub src, input_ok 256 src ->
+  safe_result (utf8_to_utf16 m src) /\ safe_result (utf8_to_utf32 m src) /\ safe_result (utf8_to_wchar m src) /\
+  safe_result (utf8_to_latin_1 m sub src) /\ safe_result (string_from_utf8 m src).
+Proof. exact total_safe_from_utf8. Qed.
+Print Assumptions total_safe_utf8_source.
+Theorem total_safe_utf16_source : forall m sub src, input_ok 65536 src ->
+  safe_result (utf16_to_utf8 m src) /\ safe_result (utf16_to_utf32 m src) /\ safe_result (utf16_to_wchar m src) /\
+  safe_result (utf16_to_latin_1 m sub src) /\ safe_result (string_from_utf16 m src).
+Proof. exact total_safe_from_utf16. Qed.
+Print Assumptions total_safe_utf16_source.
+Theorem total_safe_utf32_wchar_source : forall m sub src, input_ok 4294967296 src ->
+  safe_result (utf32_to_utf8 m src) /\ safe_result (utf32_to_utf16 m src) /\ safe_result (utf32_to_wchar m src) /\
+  safe_result (utf32_to_latin_1 m sub src) /\ safe_result (string_from_utf32 m src) /\
+  safe_result (wchar_to_utf8 m src) /\ safe_result (wchar_to_utf16 m src) /\ safe_result (wchar_to_utf32 m src) /\
+  safe_result (wchar_to_latin_1 m sub src) /\ safe_result (string_from_wchar m src).
+Proof. exact total_safe_from_utf32. Qed.
+Print Assumptions total_safe_utf32_wchar_source.
+Theorem total_safe_latin_1_source : forall src, input_ok 256 src ->
+  safe_result (latin_1_to_utf8 src) /\ safe_result (latin_1_to_utf16 src) /\ safe_result (latin_1_to_utf32 src) /\
+  safe_result (latin_1_to_wchar src) /\ safe_result (string_from_latin_1 src).
+Proof. exact total_safe_from_latin_1. Qed.
+Print Assumptions total_safe_latin_1_source.
+(* ST::string::set(char_buffer, mode) and the to_* members (hard-wired assume_valid) on ANY content *)
+Theorem total_safe_string_members : forall m sub s, all_lt 256 s = true -> fits s ->
+  safe_result (string_set m s) /\ safe_result (string_to_utf16 s) /\ safe_result (string_to_utf32 s) /\
+  safe_result (string_to_wchar s) /\ safe_result (string_to_latin_1 sub s).
+Proof. exact total_safe_string. Qed.
+Print Assumptions total_safe_string_members.
+
+(* ---- passes_agree: the converting pass, started on a destination of exactly the measured size,
+   stays inside it (its outcome is Ok, not Fault OOBWrite), accounts for every cell
+   (room + written = measured) and, when it reports success, has written every cell (room = 0) ---- *)
+Theorem measure_and_convert_agree : forall m sub,
+  (forall s, all_lt 256 s = true ->
+     passes_agree (utf16_measure_from_utf8 (Some s)) (fun d => utf16_convert_from_utf8 d s m) /\
+     passes_agree (utf32_measure_from_utf8 (Some s)) (fun d => utf32_convert_from_utf8 d s m) /\
+     passes_agree (latin_1_measure_from_utf8 (Some s)) (fun d => latin_1_convert_from_utf8 d s m sub)) /\
+  (forall s, all_lt 65536 s = true ->
+     passes_agree (utf8_measure_from_utf16 (Some s)) (fun d => utf8_convert_from_utf16 d s m) /\
+     passes_agree (utf32_measure_from_utf16 (Some s)) (fun d => utf32_convert_from_utf16 d s m) /\
+     passes_agree (latin_1_measure_from_utf16 (Some s)) (fun d => latin_1_convert_from_utf16 d s m sub)) /\
+  (forall s, all_lt 4294967296 s = true ->
+     passes_agree (utf8_measure_from_utf32 (Some s)) (fun d => utf8_convert_from_utf32 d s m) /\
+     passes_agree (utf16_measure_from_utf32 (Some s)) (fun d => utf16_convert_from_utf32 d s m) /\
+     passes_agree (Ok (length s)) (fun d => latin_1_convert_from_utf32 d s m sub)).
+Proof. exact passes_agree_all. Qed.
+Print Assumptions measure_and_convert_agree.
+(* cleanup_utf8(nullptr, ...) measures exactly what cleanup_utf8(output, ...) writes *)
+Theorem cleanup_passes_agree : forall s, all_lt 256 s = true ->
+  exists n room written,
+    cleanup_utf8 None s = Ok (n, None) /\
+    cleanup_utf8 (Some (alloc n)) s = Ok (n, Some (room, written)) /\ room = 0%nat /\ length written = n.
+Proof. exact passes_agree_cleanup. Qed.
+Print Assumptions cleanup_passes_agree.
+
+(* ---- empty_null: the empty sequence and the null pointer with length 0 give the empty buffer ---- *)
+Theorem empty_null : forall m sub src, src = None \/ src = Some [] ->
+     utf8_to_utf16 m src = Ok [] /\ utf8_to_utf32 m src = Ok [] /\ utf8_to_wchar m src = Ok [] /\
+     utf8_to_latin_1 m sub src = Ok [] /\ utf16_to_utf8 m src = Ok [] /\ utf16_to_utf32 m src = Ok [] /\
+     utf16_to_wchar m src = Ok [] /\ utf16_to_latin_1 m sub src = Ok [] /\ utf32_to_utf8 m src = Ok [] /\
+     utf32_to_utf16 m src = Ok [] /\ utf32_to_wchar m src = Ok [] /\ utf32_to_latin_1 m sub src = Ok [] /\
+     wchar_to_utf8 m src = Ok [] /\ wchar_to_utf16 m src = Ok [] /\ wchar_to_utf32 m src = Ok [] /\
+     wchar_to_latin_1 m sub src = Ok [] /\ latin_1_to_utf8 src = Ok [] /\ latin_1_to_utf16 src = Ok [] /\
+     latin_1_to_utf32 src = Ok [] /\ latin_1_to_wchar src = Ok [] /\ string_from_utf8 m src = Ok [].
+Proof. exact empty_and_null. Qed.
+Print Assumptions empty_null.
+
+(* non-vacuity: arbitrary garbage satisfies the hypotheses (a truncated 4-byte form, a stray
+   continuation byte, F8, an encoded surrogate, a form above U+10FFFF) *)
+Example garbage_is_in_scope : input_ok 256 (Some [0xF0; 0x9F; 0x98; 0x80; 0xF8; 0xED; 0xA0; 0x80; 0xF4; 0x90; 0x80; 0x80; 0xE2; 0x82]).
+Proof. split; [reflexivity|]. unfold fits. vm_compute. reflexivity. Qed.
+(* outside the bound the wrappers stop by the library's own documented assertion *)
+Example beyond_the_bound : forall m s, ~ fits s -> utf8_to_utf16 m (Some s) = Abort AbHuge.
+Proof. exact huge_is_asserted. Qed.
